@@ -2626,8 +2626,21 @@ class FnTranslator:
                     if info["fuel"]:
                         self.uses_fuel = True
                     t = self.c.fresh()
-                    return "do %s <- M_%s%s %s%s;\n%s" % (t, info["coq"], " fuel" if info["fuel"] else "", r,
-                                                           "".join(" " + a for a in args), k(t))
+                    call = "M_%s%s %s%s" % (info["coq"], " fuel" if info["fuel"] else "", r, "".join(" " + a for a in args))
+                    outs = [i for i, (n_, pt) in enumerate([q for q in info["params"] if q[0] != "self"]) if is_outparam_ty(pt)]
+                    if outs:
+                        # in-out arguments of a method (as for a call by path): their new values come back with the result
+                        names = [self.c.fresh("o") for _ in outs]
+                        res = self.c.fresh()
+                        code = "do %s <- %s;\nlet '(%s, %s) := %s in\n" % (t, call, ", ".join(names), res, t)
+                        for i_, nm in zip(outs, names):
+                            place = e[3][i_]
+                            while place[0] == "unary" and place[1] in ("&", "&mut", "*"):
+                                place = place[2]
+                            root, term = self.place_update(place, nm, env)
+                            code += "let %s := %s in\n" % (var(root), term)
+                        return code + k(res)
+                    return "do %s <- %s;\n%s" % (t, call, k(t))
                 if rt and rt[0] == "ty" and rt[1] == "Option" and m in ("unwrap", "expect"):
                     t = self.c.fresh()
                     return "do %s <- %s;\n%s" % (t, r, k(t))
@@ -3602,7 +3615,7 @@ MODULES = {
                                                             "pick_element", "slice", "add_block", "split_block", "block_elements")]
                      + [("Partition", None, f) for f in ("new", "num_blocks", "index", "size", "block_size", "smaller_block",
                                                          "pick_element", "block_id", "block_elements")]
-                     + [("BasePartition", "Display", "fmt")],      # (Partition::fmt forwards an in-out Formatter through a field method: not translated)
+                     + [("BasePartition", "Display", "fmt"), ("Partition", "Display", "fmt")],
     },
     "PartitionGen": {
         "files": ["character_sets.rs", "smt_strings.rs", "errors.rs"],
